@@ -27,7 +27,11 @@ Bool(b) == IF b THEN <<"n", 1>> ELSE <<"n", 0>>
 IsNull(v) == v[1] = "z"
 
 RECURSIVE Flatten(_)
-Flatten(ss) == IF ss = <<>> THEN <<>> ELSE Head(ss) \o Flatten(Tail(ss))
+Flatten(ss) ==   \* divide and conquer keeps the evaluation stack shallow
+  IF ss = <<>> THEN <<>>
+  ELSE IF Len(ss) = 1 THEN ss[1]
+  ELSE LET h == Len(ss) \div 2
+       IN Flatten(SubSeq(ss, 1, h)) \o Flatten(SubSeq(ss, h + 1, Len(ss)))
 
 FlatMap(s, Op(_)) == Flatten([i \in 1..Len(s) |-> Op(s[i])])
 
